@@ -77,6 +77,7 @@ PROPS = {
         "units": [
             R("h23", "c18", "TestC18_Requests", (20000, 8), (4000000, 16, 10000)),
             R("h23", "c18", "TestC18_Concurrent", (40, 2, 600), (3000, 4, 10000), race=True),
+            R("h23", "c18", "TestC18_ReadFirst", (300, 1), (20000, 4, 3000)),
         ],
     },
     "C05": {
